@@ -114,7 +114,14 @@ def r7_1(run, only=None, floor=40, residual_only=False):
     """only: optional set of selection aliases to restrict the comparison to (used by the properties whose law the kernels
     implement: the law is compared with the numpy twin there, and this rule carries it over to the numba twin)"""
     ix = run.index
-    pairs = [p for p in twin_pairs(ix) if only is None or p[0] in only]
+    def base(p):
+        # name of the twin pair independent of the alias the selecting function binds it to
+        for q, suf in ((p[2], "_np"), (p[1], "_numba")):
+            if q is not None:
+                nm = q[1] if isinstance(q, tuple) else getattr(q, "name", str(q))
+                return nm[:-len(suf)] if nm.endswith(suf) else nm
+        return p[0]
+    pairs = [p for p in twin_pairs(ix) if only is None or base(p) in only or p[0] in only]
     rng = random.Random(run.seed)
     npts = 48 if run.tier == "quick" else 512
     n_pairs = 0
